@@ -99,6 +99,15 @@ CHECKS = {
         '(swap, rename, shift, reversal, perturbation, off-by-one, scaling around a percentage band) x subsets of input_positions against an exact reference sum; error inputs and input_positions grids against the model.',
    note=PROOF_NOTE + ' The summand and limit expressions are evaluated by the real evaluator (outside the model); renaming invariance is checked on the implementation, not proved (the model\'s summand is already a function). IntegralGrader (scipy) is not exercised.',
    technique='Lean 4 proof (Finset-sum characterisation of the Python range loop, re-indexing lemmas) + exact correspondence + reference-sum oracle', design='§6 C19'),
+ 'C02': dict(
+   text='On top of the call-wrapper theorems of C01 (with debug off only library errors leave __call__; a library error keeps its class with <br/> line breaks; anything else becomes the generic student-facing error naming exactly what was submitted): '
+        'BracketValidator.validate modelled as its stack machine and proved to accept exactly the balanced strings over the three bracket pairs (every length and depth), every refusal being an UnbalancedBrackets diagnosis; ensure_text_inputs modelled over Python object shapes and proved to accept exactly text (single graders) / lists of text (list graders), '
+        'everything else being a ConfigError; the recasting tables of eval_function / MathExpression.eval / MatrixGrader.check_response proved total into the library family with the documented policy; the exception class tree and the raise sites of the code that runs outside the guarded region are regenerated from the live source on every run '
+        'and checked against the model by kernel-checked obligations (all classes descend from MITxError; only library classes are raised outside the try, the one unreachable ValueError excepted). '
+        'Tie: exhaustive bracket strings up to length 5-7 plus random deep ones (outcome kind and highlighted indices), generated non-text objects through ensure_text_inputs and whole calls, the MatrixGrader policy grid, a table of anticipated problems that must keep their class, '
+        'and a hostile-input monitor (curated + grammar-derived mutated formulas over 17 grader configurations incl. sibling/dependent-sampler lists) under a wall-clock alarm.',
+   note=PROOF_NOTE + ' Partial: which internal exception numpy/pyparsing/CPython raises for a given string, and termination of the real evaluation, are not modelled; they are monitored (exploration, not proof) by the hostile-input fuzz, whose case counts are in the evidence. expect values are assumed to be text.',
+   technique='Lean 4 proof (stack machine <-> balanced grammar, decision tables, generated class-tree obligations) + correspondence + hostile-input monitor', design='§6 C02'),
  'C11': dict(
    text='ItemGrader.__call__ / AbstractGrader.__call__ modelled as a state machine over the grader object (stored answers, inferring flag, log flag, debug log) with validation, text check and grading as parameters; proved by induction over ANY call history '
         '(including calls that raise in validation, in the input check or in grading): the next call returns what a freshly constructed grader returns for the current expect value or the last successfully supplied one; '
